@@ -109,3 +109,26 @@ C03 += [
         family="bitmap", cost=5, note="hwloc_weight_long against the 64-iteration bit count (spec loop unwound completely)"),
 ]
 PROPS["C03"] = C03
+
+
+# ------------------------------------------------------------------ C11 traversal.c / topology.c
+def _tp(name, entry, unwind, cost=20, label="proof", note="", defs=None, driver="traversal.drv.c", **kw):
+    # NULL+0 (tmp += res with string==NULL, size==0, res clamped to 0) is the snprintf(NULL,0) idiom of these
+    # functions; cbmc's pointer-overflow check rejects any arithmetic on NULL, so it is off for this family.
+    return Job(name=name, driver=driver, entry=entry, mode="plain", unwind=unwind, min_post=0, cost=cost,
+               label=label, family="traversal", defines=dict(defs or {}), note=note,
+               drop_checks=("--pointer-overflow-check",), **kw)
+
+C11 = [
+    _tp("hwloc__osdev_type_snprintf_short", "hp_hwloc__osdev_type_snprintf_short", 2, cost=5, plain_loop_contracts=True, min_lis=0,
+        note="snprintf contract for all ostype words and any names table, buffers 0..64 (NULL when 0); loop closed by invariant + decreases"),
+    _tp("hwloc__osdev_type_snprintf_normal", "hp_hwloc__osdev_type_snprintf_normal", 2, cost=30, plain_loop_contracts=True,
+        note="snprintf contract + termination (decreases) for ALL ostype words (incl. unknown bits) and any names table, buffers 0..64; loop closed by the cursor-triple invariant"),
+    _tp("hwloc_obj_type_snprintf.other", "hp_hwloc_obj_type_snprintf", 9, cost=20, defs={"TYPE_SNPRINTF_NOT_OSDEV": None},
+        note="snprintf contract for every type value except OS_DEVICE (incl. invalid ones), every attribute union content, every flag word, buffers 0..64"),
+    _tp("hwloc_obj_type_snprintf.osdev", "hp_hwloc_obj_type_snprintf", 2, cost=30, plain_loop_contracts=True, defs={"TYPE_SNPRINTF_OSDEV_ONLY": None},
+        note="snprintf contract + termination for OS devices: every osdev.types word, every flag word, buffers 0..64"),
+    _tp("hwloc_compare_types", "hp_hwloc_compare_types", 2, cost=5, driver="topology.drv.c",
+        note="antisymmetry, Machine highest, PU deepest, kind predicates vs documented kinds, transitivity, order tables are inverse permutations: all type triples (loop-free, complete)"),
+]
+PROPS["C11"] = C11
